@@ -45,7 +45,8 @@ EXPLANATION = (
     "without committing and sqlite3.connect is not put in autocommit mode; (D5) list_hosts "
     "columns, export keys, import required fields and INSERT columns/bindings agree and the "
     "TOML key only feeds messages; (D6) per-host statements carry WHERE hostname = ? AND port "
-    "= ? bound to the method's own parameters. SQLite and filesystem crash behaviour are trusted."
+    "= ? bound to the method's own parameters. SQLite and filesystem crash behaviour are trusted. "
+    "(D7) no caller of import_toml puts another committing store operation on the same path."
 )
 
 DB = "security.tofu:TOFUDatabase"
